@@ -4,4 +4,4 @@
 From Coq Require Import Extraction ExtrOcamlBasic.
 From PLV Require Import Extract.Entries.
 Extraction Language OCaml.
-Extraction "model.ml" dispatch.
+Extraction "model.ml" model_dispatch.
